@@ -320,8 +320,11 @@ class Soil:
             ] = new_layer
         else:
             last = self.profile[self.profile.Layer == new_layer - 1].dzsum.values[-1]
+            # compare in centimetres, as for the first layer: the unrounded sum can fall
+            # just short of a compartment boundary it coincides with (0.1 + 0.35 < 0.45)
             self.profile.loc[
-                (thickness + last >= self.profile.dzsum) & (self.profile.Layer.isna()),
+                (round(thickness + last, 2) >= round(self.profile.dzsum, 2))
+                & (self.profile.Layer.isna()),
                 "Layer",
             ] = new_layer
 
